@@ -272,6 +272,40 @@ fn session(rng: &mut crate::util::Rng, rep: &mut Report) {
     session_of_length(rng, rep, n)
 }
 
+/// One bus, nothing but data chunks, `n` of them: chunk number 256 (quick) and 65 536 (thorough) must be followed by the
+/// same 30 ms of silence as chunk number 1.
+fn chunk_run(rep: &mut Report, n: usize) {
+    let st = doubles::shared(doubles::WEIRD_SETTINGS);
+    let port = InstrPort::scripted(st.clone(), FragReader::plain(SENTINEL.to_vec()), FragWriter::new(vec![], WriteAct::Accept(usize::MAX)));
+    let Ok(mut bus) = SerialSignBus::try_new(port) else {
+        rep.note("measure_error/chunk_run", J::s("try_new failed"));
+        return;
+    };
+    rep.case(Some(0xC18_0000 + n as u64));
+    let mut last_write_end: Option<Instant> = None;
+    for i in 0..n {
+        let m = RefMsg::Data { offset: ((i % 4096) * 16) as u16, data: vec![i as u8; 16] };
+        st.borrow_mut().log.clear();
+        let r = catch(|| bus.process_message(refs::from_ref(&m)).is_ok());
+        if !matches!(r, Ok(true)) {
+            rep.note("measure_error/chunk_run", J::s(format!("chunk #{} failed", i)));
+            return;
+        }
+        let log = st.borrow().log.clone();
+        let first_write = log.iter().find(|e| matches!(e.ev, PortEv::Write { .. })).map(|e| e.t0);
+        let this_end = log.iter().filter(|e| matches!(e.ev, PortEv::Write { .. })).map(|e| e.t1).next_back();
+        if let (Some(prev), Some(start)) = (last_write_end, first_write) {
+            let gap = start.duration_since(prev);
+            if gap < SEND_PACE {
+                rep.violation(MON, "data_chunk_not_paced", &format!("chunk-run-{}", i), format!("chunk #{} of a run of {} data chunks through one bus was written {:.3} ms after chunk #{} (< 30 ms)", i, n, ms(gap), i - 1), J::obj(vec![("chunk", J::us(i)), ("gap_ms", J::Num(ms(gap)))]));
+                return;
+            }
+        }
+        last_write_end = this_end;
+        rep.count("chunk_run_chunks");
+    }
+}
+
 fn session_of_length(rng: &mut crate::util::Rng, rep: &mut Report, n: usize) {
     let msgs: Vec<SessMsg> = (0..n).map(|_| random_session_message(rng)).collect();
     let shown = msgs.iter().map(|m| format!("{}{}", m.m.show(), m.reply.as_ref().map(|r| format!("<-{}", r.show())).unwrap_or_default())).collect::<Vec<_>>().join(" ");
@@ -466,6 +500,8 @@ pub fn run(ctx: &Ctx) -> Outcome {
             // one bus instance through 300 messages: the 300th chunk is paced like the first
             session_of_length(&mut rng, rep, 300);
             rep.count("long_sessions");
+        } else if i == 2 {
+            chunk_run(rep, if ctx.quick() { 300 } else { 66_000 });
         }
         for _ in 0..n_sessions / shards {
             session(&mut rng, rep);
@@ -490,6 +526,7 @@ pub fn run(ctx: &Ctx) -> Outcome {
         floor("data chunk followed by a failing flush (3 error kinds)", report.get("flush_fault_trials") >= 9, report.get("flush_fault_trials")),
         floor("sessions: paced chunks, paced replies and unpaced pairs all observed mid-session", report.get("session_paced_chunks") >= 50 && report.get("session_paced_replies") >= 20 && report.get("session_pairs_judged") >= 10, format!("{} chunks, {} replies, {} pairs", report.get("session_paced_chunks"), report.get("session_paced_replies"), report.get("session_pairs_judged"))),
         floor("paced exchanges on ports whose write / read blocks for 10, 20, 45 and 120 ms", report.get("stalled_port_trials") >= 8, report.get("stalled_port_trials")),
+        floor("a run of data chunks through one bus (300 in the quick tier, 66 000 in the thorough tier)", report.get("chunk_run_chunks") == if ctx.quick() { 300 } else { 66_000 }, report.get("chunk_run_chunks")),
         floor("two sessions of 300 messages through one bus", report.get("long_sessions") == 2, report.get("long_sessions")),
         floor("every unpaced cell measured", report.get("unpaced_send_cells") == n_send_unpaced, report.get("unpaced_send_cells")),
         floor("no measurement errors", !report.notes.keys().any(|k| k.starts_with("measure_error/")), "see notes"),
